@@ -593,7 +593,8 @@ def implementedby_install(rep, mod, rule):
         if len(named) != 1:
             p_create.append('%d specifications created on a path' % len(named))
             continue
-        c = named[0].r
+        from .sem import nform
+        c = nform(named[0].r)
         spec = nt(c)
         star = [a.value for a in c.args if isinstance(a, ast.Starred)]
         if len(c.args) != 2 or len(star) != 1 or nt(c.args[0]) != '_implements_name(cls)':
